@@ -325,6 +325,7 @@ def shadow_units(tier):
 
 
 SH_META = {
+    "level_if_complete": "proof",
     "functions_under_contract": ["utils/cholesky.py::_psd_safe_cholesky (loop 0 cut at the invariant)", "utils/cholesky.py::psd_safe_cholesky"],
     "trusted_base": ["z3", "CPython", "symtorch models (clone, diagonal view, add_ through a view, expand, unsqueeze, mT, any, isnan)",
                      "leaf contract: torch.linalg.cholesky_ex is a deterministic per-member function (info = G(member matrix)), info==0 <=> success"],
